@@ -343,7 +343,13 @@ fn one_case(id: String, rng: &mut Rng, hostile: bool, mech: Mech) -> Case {
         }
     }
     evs.sort_by_key(|(s, _)| *s);
-    let trace = if evs.is_empty() { "-".to_string() } else { evs.iter().map(|(_, s)| s.clone()).collect::<Vec<_>>().join(" ") };
+    // compared with the model: the windows requested from the platform (an unordered group: the
+    // property does not fix the order in which the four structures are mapped).  How often and in
+    // which order `new` reads configuration space and sizes BARs is not fixed by the property either:
+    // the oracles below check what matters (configuration space left as it was, no illegal access,
+    // every mapping inside an allocated memory BAR).
+    let ps: Vec<String> = evs.iter().filter(|(_, s)| s.starts_with("P(")).map(|(_, s)| s.clone()).collect();
+    let trace = if ps.is_empty() { "-".to_string() } else { format!("{{ {} }}", ps.join(" ")) };
     let st = bus.borrow().fns[&key].state_str();
     let op = format!("pcicap new cmd={:#x} st={:#x} bars={} w={}", lay.cmd, lay.status, decls_arg(&lay.decls), sparse_words(&lay.words));
 
